@@ -636,6 +636,13 @@ def run_property(pid, tier, seed):
         m = re.search(r'File "\./theories/[^"]*", line \d+.*?\n(?:.*\n){0,6}', log)
         broken.append('proof obligations of theories/Props/%s do not check (make failed)%s' % (spec['theorems'][0], ': ' + m.group(0)[:600] if m else ''))
         broken.extend(terrs)     # a source shape the translator no longer recognises is a broken tie for the files that depend on it
+    if pid == 'C07':
+        ps = st.get('panic_sites') or {}
+        if ps.get('error'):
+            broken.append('panic-site audit could not run: %s' % ps['error'])
+        elif ps.get('new'):
+            broken.append('panic sites of the library code that the model does not account for (translator/panic_sites.allow): %s'
+                          % '; '.join(x.replace('\t', ' | ') for x in ps['new'][:6]))
     for n in names:
         if built and not thm[n]['ok']:
             broken.append('theorem %s depends on: %s' % (n, thm[n]['assumptions']))
